@@ -174,7 +174,8 @@ class RxScn(Scenario):
 
         from rsocket.payload import Payload
         conn, client, server = start_pair(w, self.flavour, server_kw={'handler_factory': L['factory'](H)},
-                                          client_kw={'setup_payload': Payload(b'sd', b'sm')})
+                                          client_kw={'setup_payload': Payload(b'sd', b'sm'), 'data_encoding': b'text/plain',
+                                                     'metadata_encoding': b'message/x.rsocket.composite-metadata.v0'})
         rc = L['Client'](client)
         w.objs['rc'] = rc
         obs = w.objs['obs'] = RecObserver(w, 'c0', 'obs')
@@ -230,7 +231,7 @@ class RxScn(Scenario):
         tag = '%s/%s/%s' % (self.api, self.kind, self.source)
         calls = w.objs['calls']
         disposed = 'disposed_at' in st
-        if ('on_setup', b'application/json', b'application/json', (b'sd', b'sm')) not in calls:
+        if ('on_setup', b'text/plain', b'message/x.rsocket.composite-metadata.v0', (b'sd', b'sm')) not in calls:
             out.append(('C20.delegate-invoked', 'C20.delegate-invoked | %s | on_setup' % self.api, 'delegate on_setup calls: %s' % [c for c in calls if c[0] == 'on_setup']))
         if 'disp' not in st:
             return out
@@ -402,7 +403,7 @@ class RxScn(Scenario):
         from rsocket.payload import Payload
         rx = L['rx']
         scn = self
-        w.objs['calls'] = [('on_setup', b'application/json', b'application/json', (b'sd', b'sm'))]
+        w.objs['calls'] = [('on_setup', b'text/plain', b'message/x.rsocket.composite-metadata.v0', (b'sd', b'sm'))]
         w.objs['expect'] = {}
 
         def request_stream(h, p):
@@ -417,7 +418,8 @@ class RxScn(Scenario):
             return pub, sub
 
         conn, client, server = start_pair(w, self.flavour, s_beh={'request_stream': request_stream, 'request_channel': request_channel},
-                                          client_kw={'setup_payload': Payload(b'sd', b'sm')})
+                                          client_kw={'setup_payload': Payload(b'sd', b'sm'), 'data_encoding': b'text/plain',
+                                                     'metadata_encoding': b'message/x.rsocket.composite-metadata.v0'})
         rc = L['Client'](client)
         obs = w.objs['obs'] = RecObserver(w, 'c0', 'obs')
         st = w.objs['st'] = {}
